@@ -15,8 +15,8 @@ import (
 func init() {
 	register(&core.Spec{
 		ID: "C40",
-		Explanation: "Decides structural necessary conditions of C40: (OPEN-OWNED) every file descriptor the evaluator itself opens (os.Pipe in pipelines and PipePort, os.OpenFile in redirections) is, on the success path, recorded as owned by the form (formOwnedPort.File) so that the per-form epilogue closes it, or closed/handed to a cleanup function in the same function; (CLEANUP-CALLED) every cleanup/collect function returned by PipePort, CapturePort, ValueCapturePort, StringCapturePort, FilePort and PortsFromFiles is called (directly or deferred) on every path of its caller after the success edge, or returned to that caller's caller; (REPLACE-CLOSES) in a redirection the port previously in the destination slot is closed (if owned) before the slot is overwritten; (JOINED) every goroutine started by the evaluator is joined (shared with C19). Descriptor counts and fault paths (os.Pipe failing in the middle of a pipeline) are not decided.",
-		NotCovered:  "descriptor counts; the path on which os.Pipe fails after earlier stages were started (recorded as a note); files opened explicitly by scripts (excluded by the property)",
+		Explanation: "Decides structural necessary conditions of C40: (OPEN-OWNED) every file descriptor the evaluator itself opens (os.Pipe in pipelines and PipePort, os.OpenFile in redirections) is, on the success path, recorded as owned by the form (formOwnedPort.File) so that the per-form epilogue closes it, or closed/handed to a cleanup function in the same function; (CLEANUP-CALLED) every cleanup/collect function returned by PipePort, CapturePort, ValueCapturePort, StringCapturePort, FilePort and PortsFromFiles is called (directly or deferred) on every path of its caller after the success edge, or returned to that caller's caller; (REPLACE-CLOSES) in a redirection the port previously in the destination slot is closed (if owned) before the slot is overwritten; (JOINED) every goroutine started by the evaluator is joined, on every path from its go statement to a return of the spawner (shared with C19; this includes the path on which os.Pipe fails in the middle of a pipeline); (OWN-PAIR) ownership records are reset after closing, and the redirection code and the form's epilogue work on one ownership table. Descriptor counts are not decided.",
+		NotCovered:  "descriptor counts; files opened explicitly by scripts (excluded by the property)",
 		Rules:       []string{"OPEN-OWNED", "CLEANUP-CALLED", "REPLACE-CLOSES", "OWN-PAIR: an ownership record is reset after its port is closed, and cleared only after closing through the same slot", "JOINED"},
 		Patterns:    []string{"./pkg/eval/...", "./pkg/mods/...", "./pkg/edit/...", "./pkg/shell/..."},
 		Run: func(p *core.Program, r *core.Report) {
